@@ -31,6 +31,7 @@ import (
 	"github.com/yandex/pandora/core"
 	"github.com/yandex/pandora/core/aggregator/netsample"
 	"github.com/yandex/pandora/core/config"
+	"github.com/yandex/pandora/lib/errutil"
 	coreimport "github.com/yandex/pandora/core/import"
 	"go.uber.org/zap"
 )
@@ -103,6 +104,9 @@ type Cell struct {
 	Pad       int         // every entry's URI carries a query of this many bytes (invisible to the provider's logic: file size only)
 	Both      bool        // BOTH a file and inline `uris:` are configured (NewProvider must reject that)
 	Big       map[int]int // entry i is Big[i] bytes big: uripost / http/json: its body; raw: its whole request
+	// round 6
+	EmptyCases bool // chosencases is GIVEN but empty (`chosencases: []` / ChosenCases: []string{}): no filter, like an absent key (Chosen must be empty)
+	ReadCancel int  // K > 0: the context is cancelled INSIDE the K-th Read of the ammo file after Run has started (the decoder is in the middle of Scan)
 }
 
 type Hdr struct{ Key, Val string }
@@ -132,6 +136,11 @@ type cellIO struct {
 	killed    atomic.Bool
 	closes    atomic.Int64
 	closeFail bool
+	// round 6: cancel the run's context inside the readCancel-th Read after Run has started (armed)
+	armed      atomic.Bool
+	reads      atomic.Int64
+	readCancel int64
+	cancel     atomic.Value // func()
 }
 
 var errKilled = errors.New("verif: ammo file killed by watchdog")
@@ -176,6 +185,11 @@ func (f *countFile) Read(p []byte) (int, error) {
 	f.io.ops.Add(1)
 	if f.io.killed.Load() {
 		return 0, errKilled
+	}
+	if f.io.readCancel > 0 && f.io.armed.Load() && f.io.reads.Add(1) == f.io.readCancel {
+		if fn, ok := f.io.cancel.Load().(func()); ok {
+			fn()
+		}
 	}
 	return f.File.Read(p)
 }
@@ -541,6 +555,9 @@ func construct(c Cell, path string) (p core.Provider, err error) {
 			ChosenCases: c.Chosen,
 			Headers:     cfgHeaderLines(c),
 		}
+		if c.EmptyCases && len(c.Chosen) == 0 {
+			conf.ChosenCases = []string{}
+		}
 		if c.Uris || c.Both {
 			conf.Uris = URILines(c)
 		}
@@ -600,6 +617,8 @@ func construct(c Cell, path string) (p core.Provider, err error) {
 			cs = append(cs, s)
 		}
 		m["chosencases"] = cs
+	} else if c.EmptyCases {
+		m["chosencases"] = []any{}
 	}
 	var h ammoHolder
 	if err := config.Decode(map[string]any{"ammo": m}, &h); err != nil {
@@ -726,6 +745,17 @@ func classifyErr(err error) string {
 	return classifyOwn(err)
 }
 
+// classifyRun (round 6): how the run ENDS is what core/engine makes of the error: a cancellation that errors.Is finds
+// but errutil.IsCtxError (pkg/errors.Cause) does not recognise as the context's own error is reported by the engine
+// as a failed provider, not as a stopped run: token `canceledw`.
+func classifyRun(ctx context.Context, err error) string {
+	s := classifyErr(err)
+	if strings.HasPrefix(s, "canceled") && !errutil.IsCtxError(ctx, err) {
+		return "canceledw" + strings.TrimPrefix(s, "canceled")
+	}
+	return s
+}
+
 func classifyOwn(err error) string {
 	switch {
 	case err == nil:
@@ -771,7 +801,7 @@ func Run(c Cell) Obs {
 func runOnce(c Cell) Obs {
 	var obs Obs
 	obs.Closed = -1
-	cio := &cellIO{closeFail: c.CloseFail}
+	cio := &cellIO{closeFail: c.CloseFail, readCancel: int64(c.ReadCancel)}
 	suffix, content := FileFor(c)
 	path := ""
 	if !c.Uris {
@@ -800,6 +830,8 @@ func runOnce(c Cell) Obs {
 	if c.Pre {
 		cancel()
 	}
+	cio.cancel.Store(func() { cancel() })
+	cio.armed.Store(true)
 
 	var events atomic.Int64 // deliveries + consumer exit + run return
 	var mu sync.Mutex
@@ -920,7 +952,7 @@ func runOnce(c Cell) Obs {
 		}
 	}
 	if runReturned {
-		obs.Run = classifyErr(runErr)
+		obs.Run = classifyRun(ctx, runErr)
 	} else {
 		obs.Run = "noreturn"
 	}
